@@ -1,4 +1,5 @@
 """C05 - mGH estimates always bracket the true modified Gromov-Hausdorff distance."""
+import os
 import random
 
 import numpy as np
@@ -109,11 +110,16 @@ def check_large(case, ctx):
     ctx.require(ub >= trivial, "upper_bound_below_trivial_bound", lambda: "ub=%r < %r" % (ub, trivial))
 
 
+_TIER = os.environ.get("PV_TIER", "quick")
+_BIG_EDGE = [126, 127, 128, 129, 130] + ([255, 256, 257] if _TIER == "thorough" else [])
+_BIG_MAX = 260 if _TIER == "thorough" else 140
+
+
 @st.composite
 def s_big(draw):
     def one():
         return {"family": draw(st.sampled_from(["path", "cycle", "star", "caterpillar", "random_tree", "tree_plus"])),
-                "n": draw(st.one_of(st.sampled_from([126, 127, 128, 129, 130, 255, 256, 257]), st.sampled_from(list(range(60, 261))))),
+                "n": draw(st.one_of(st.sampled_from(_BIG_EDGE), st.sampled_from(list(range(60, _BIG_MAX + 1))))),
                 "seed": draw(st.integers(0, 2 ** 31))}
     return {"g": one(), "h": one(), "seed": draw(st.integers(0, 2 ** 32 - 1)), "order": None, "order_form": "array", "same": draw(st.integers(0, 4)) == 0}
 
@@ -210,8 +216,8 @@ CLAUSES = [
     Clause("large_validity", s_pair(13, 18), check_large, quick=800, thorough=8000,
            rule="13..18 vertices (exact value out of reach): 0 <= lb <= ub, half-integrality, lb <= half the distortion of maps found by an "
                 "independent greedy search in both directions, ub >= trivial bound; non-trivial = max diameter >= 3 and lb > 0"),
-    Clause("big_graphs", s_big(), check_big, quick=32, thorough=640,
-           rule="60..260 vertices (sizes around 127/128 and 255/256 favoured: the implementation picks the smallest integer dtype that holds the "
+    Clause("big_graphs", s_big(), check_big, quick=16, thorough=640,
+           rule="60..140 vertices in the quick tier, 60..260 in the thorough tier (sizes around 127/128 and 255/256 favoured: the implementation picks the smallest integer dtype that holds the "
                 "distances): paths, cycles, stars, caterpillars, random trees (+ chords), expanded from a generated seed; no exception, 0 <= lb <= ub, "
                 "half-integrality, ub >= trivial bound, lb <= half the distortion of a greedy map, relabelled copies get lb == 0; non-trivial = >= 128 vertices"),
     Clause("small_slice", cases=slice_cases, check=check_slice,
